@@ -40,7 +40,7 @@ Definition corr_chan (w : wf) (grid : list Q) (o : chobs) : bool :=
   && sres_eqb (sres_of (get_sampled w c grid)) (co_gs o)
   && match co_us o with
      | None => true
-     | Some us => sres_eqb (if zdiv w c then SErr EZeroDiv else SOK (sample_vec w c grid)) us
+     | Some us => sres_eqb (if zdiv w c then SErr EZeroDiv else if kerr w c then SErr EKey else SOK (sample_vec w c grid)) us
      end.
 
 Definition check_corr (k : case) : bool :=
